@@ -47,6 +47,7 @@ USORT = ("Sort", "S", ())
 QDOMS = [{INT: (0,), REAL: (Fraction(0),), USORT: (0,)},
          {INT: (0, 1), REAL: (Fraction(0), Fraction(1, 2)), USORT: (0, 1)},
          {INT: (-1, 0, 2), REAL: (Fraction(-1), Fraction(0), Fraction(2)), USORT: (0, 1)}]
+SEM_TREE_LIMIT = 6000     # semantic tests evaluate the tree unfolding (a binder multiplies its body)
 SMALL_DOM = {INT: (-1, 0, 2), REAL: (Fraction(-1), Fraction(0), Fraction(1, 2))}
 TINY_DOM = {INT: (0, 1), REAL: (Fraction(0), Fraction(1, 2))}
 CAP_QUICK, CAP_THOROUGH = 20000, 200000
@@ -232,15 +233,51 @@ def features(f, nodes, sort, free, sizes):
     if nested:
         fs.append("bool-in-theory")
     if sizes["TREE_NODES"][0] != sizes["DAG_NODES"][0]:
-        fs.append("shared")
+        occ = {}
+        for n in nodes:
+            for k in n.args():
+                if len(k.args()) > 0:
+                    occ[k] = occ.get(k, 0) + 1
+        if any(c > 1 for c in occ.values()):
+            fs.append("shared")
     return fs
 
 
 # ---------------------------------------------------------------------------------------
 # the verdict
 
+def tree_nodes(f):
+    t = {}
+    for n in subterms_postorder(f):
+        t[n] = 1 + sum(t[k] for k in n.args())
+    return t[f]
+
+
+def eval_cost(f, nodes):
+    """node visits of one reference evaluation: the tree unfolding, a binder repeating its body once
+    per tuple of its (largest) quantification domain"""
+    c = {}
+    for n in nodes:
+        k = 1 + sum(c[a] for a in n.args())
+        if n.node_type() in QUANT:
+            rep = 1
+            for v in n.quantifier_vars():
+                t = v.symbol_type()
+                rep *= 2 if t.is_bool_type() else (1 << t.width) if t.is_bv_type() else 3
+            k = 1 + rep * c[n.arg(0)]
+        c[n] = k
+    return c[f]
+
+
+def _show(n):
+    """one-line rendering; a large shared DAG is summarised (its tree unfolding is exponential)"""
+    if tree_nodes(n) <= 400:
+        return termio.short(termio.dump(n))
+    return "<%s term with %d DAG nodes>" % (op.op_to_str(n.node_type()), len(subterms_postorder(n)))
+
+
 def _names(ns):
-    return sorted(termio.short(termio.dump(n)) for n in ns)
+    return sorted(_show(n) for n in ns)
 
 
 class Analyser(object):
@@ -382,6 +419,9 @@ class Analyser(object):
                 res.count("atoms_of_theory_term:returned")
             except Exception:
                 res.count("atoms_of_theory_term:raised")
+        if sizes["TREE_NODES"][0] > SEM_TREE_LIMIT or eval_cost(f, nodes) > SEM_TREE_LIMIT:
+            res.count("sem_skipped:one evaluation visits more than %d nodes" % SEM_TREE_LIMIT)
+            return fails
         # ---- semantic test (i): the value depends only on the symbols reported free
         if rep_free is not None:
             syms = ref_symbols(nodes)
@@ -442,13 +482,13 @@ class Analyser(object):
 
     def _sem_atoms(self, f, ff, atoms, nodes):
         res = self.res
-        al = sorted(atoms, key=lambda a: termio.short(termio.dump(a)))
+        al = sorted(atoms, key=lambda a: a.node_id())
         afs = []
         syms = ref_symbols(nodes)
         for a in al:
             sa, fa = compile_term(a, self.cmemo)
             if sa != BOOL:
-                return "reported atom %s is not Boolean" % termio.short(termio.dump(a))
+                return "reported atom %s is not Boolean" % _show(a)
             afs.append(fa)
             syms |= ref_symbols(subterms_postorder(a))
         S = {s.symbol_name(): sort_of(s.symbol_type()) for s in syms}
@@ -487,7 +527,7 @@ class Analyser(object):
 
     def minimise(self, f, kind):
         for n in subterms_postorder(f):
-            r = self.verdict(n) if n is f else self.cached(n)
+            r = self.cached(n)
             if kind in r:
                 return n, r[kind]
         return f, None
@@ -501,16 +541,21 @@ def make(env, profile, res, part):
     an = Analyser(env, part, res)
     reported = set()
 
-    def check(f):
+    def check(f, how=None):
+        """how: JSON description of how f is built when it is too large to be dumped as a tree"""
         info = {}
         fails = an.verdict(f, info)
         fs = info.get("features") or []
         if fs:
             res.count("nontrivial")
         res.outcome("%s:%s" % ("formula" if info.get("sort") == BOOL else "term", "+".join(fs) or "plain"))
-        if fs:
-            res.sample({"part": part["name"], "term": termio.dump(f), "features": fs,
-                        "free": _names(f.get_free_variables())}, limit=2)
+        if fs and len(res.samples) < 2:
+            case = {"part": part["name"], "features": fs, "free": _names(ref_free(f))}
+            case.update(how if how is not None else {"term": termio.dump(f)})
+            res.sample(case, limit=2)
+        if not fails:
+            return
+        an.cache[f] = fails
         for kind in sorted(fails):
             sub, msg = an.minimise(f, kind)
             if msg is None:
@@ -519,10 +564,15 @@ def make(env, profile, res, part):
                 res.count("violations_same_subterm")
                 continue
             reported.add((sub, kind))
+            case = {"part": part["name"], "kind": kind}
+            if tree_nodes(sub) <= SEM_TREE_LIMIT:
+                case["term"] = termio.dump(sub)
+                if how is None and sub is not f:
+                    case["found_in"] = termio.dump(f)
+            else:
+                case.update(how)
             res.violation(part["name"], sig_of(sub, kind),
-                          "%s: %s: %s" % (part["name"], termio.short(termio.dump(sub)), msg),
-                          {"part": part["name"], "term": termio.dump(sub), "kind": kind,
-                           "found_in": termio.dump(f)})
+                          "%s: %s: %s" % (part["name"], _show(sub), msg), case)
     return check
 
 
@@ -578,19 +628,44 @@ def mix_profile(env, quant=True):
     return p
 
 
-def boolth_profile(env):
-    """Boolean structure over arithmetic atoms whose terms contain Boolean conditions"""
+def boolth_profile(env, wide=False):
+    """Boolean structure over arithmetic atoms whose terms contain Boolean conditions:
+    depth 3 reaches and(ite(a,x,0) <= x, a), ite(x <= 0, x, 0) <= x, iff(le(..), not(a)) ..."""
     p = Profile("boolth", env)
     m = p.m
     a, b = p.sym("a", BOOL), p.sym("b", BOOL)
     x, y = p.sym("x", INT), p.sym("y", INT)
     p.leaf(BOOL, a, b)
-    p.leaf(INT, x, y, m.Int(0), m.Int(1))
+    p.leaf(INT, x, m.Int(0))
+    if wide:
+        p.leaf(INT, y)
     P.add_bool_ops(p, nary3=False, ite=True)
     p.op("le", [INT, INT], BOOL, lambda m, a, b: m.LE(a, b))
     p.op("eq", [INT, INT], BOOL, lambda m, a, b: m.Equals(a, b))
     p.op("ite", [BOOL, INT, INT], INT, lambda m, c, a, b: m.Ite(c, a, b))
-    p.op("plus", [INT, INT], INT, lambda m, a, b: m.Plus(a, b))
+    return p
+
+
+def shadow_profile(env):
+    """few leaves, binders over every symbol: depth 3 reaches and(forall x. x<=y, x<=0),
+    forall x. exists x. ..., binders whose variable does not occur, binders over a used u"""
+    p = Profile("shadow", env)
+    m = p.m
+    B1 = ("BV", 1)
+    a = p.sym("a", BOOL)
+    x, y = p.sym("x", INT), p.sym("y", INT)
+    u = p.sym("u", B1)
+    p.leaf(BOOL, a)
+    p.leaf(INT, x, y, m.Int(0))
+    p.leaf(B1, u, m.BV(0, 1))
+    p.op("not", [BOOL], BOOL, lambda m, a: m.Not(a))
+    p.op("and", [BOOL, BOOL], BOOL, lambda m, a, b: m.And(a, b))
+    p.op("or", [BOOL, BOOL], BOOL, lambda m, a, b: m.Or(a, b))
+    p.op("le", [INT, INT], BOOL, lambda m, a, b: m.LE(a, b))
+    p.op("bveq1", [B1, B1], BOOL, lambda m, a, b: m.Equals(a, b))
+    for q, Q in (("forall", m.ForAll), ("exists", m.Exists)):
+        for nm, vs in (("a", [a]), ("x", [x]), ("xy", [x, y]), ("u", [u]), ("ax", [a, x])):
+            p.op("%s_%s" % (q, nm), [BOOL], BOOL, (lambda Q, vs: lambda m, f: Q(vs, f))(Q, vs))
     return p
 
 
@@ -620,56 +695,61 @@ def parts(ctx):
     B2 = ("not", "and", "or", "implies", "iff")
     # ---- Boolean
     A(name="bool-d2", profile=lambda e: P.bool_profile(e, 3, consts=(True,)), depth=2, shards=16,
-      mid_ops=_names_in(*B2), top_ops=_names_in(*(B2 + ("bite",))), max_new=None if not q else 2)
+      mid_ops=_names_in(*B2), top_ops=_names_in(*(B2 + ("bite",))), max_new=2 if q else None)
     # ---- arithmetic
     A(name="lia-d2", profile=lambda e: P.lia_profile(e, consts=(0, 1), big=True), depth=2, shards=16,
       mid_ops=_binary_or_less, top_ops=_binary_or_less)
     A(name="lia-ite-d2", profile=lambda e: P.lia_profile(e, consts=(0, 1), big=False, pow_=False),
-      depth=2, shards=8, mid_ops=_binary_or_less, top_ops=_names_in("ite"), max_new=1 if q else None)
+      depth=2, shards=8 if q else 32, mid_ops=_binary_or_less, top_ops=_names_in("ite"),
+      max_new=1 if q else None)
     A(name="lra-d2", profile=lambda e: P.lra_profile(e, consts=(Fraction(0), Fraction(1, 2))), depth=2,
       shards=16, mid_ops=_binary_or_less, top_ops=_binary_or_less)
     A(name="lira-d2", profile=P.lira_profile, depth=2, shards=16, mid_ops=_binary_or_less,
       top_ops=_binary_or_less, max_new=1 if q else None)
     # ---- bit-vectors
-    A(name="bv1-2-d2", profile=lambda e: P.bv_profile(e, (1, 2), consts=(0, 3), nsyms=1), depth=2, shards=16,
-      mid_ops=_binary_or_less, top_ops=_binary_or_less, max_new=1 if q else None)
+    A(name="bv1-2-d2", profile=lambda e: P.bv_profile(e, (1, 2), consts=(0, 3), nsyms=1), depth=2,
+      shards=16 if q else 64, mid_ops=_binary_or_less, top_ops=_binary_or_less, max_new=1 if q else None)
     A(name="bv3-d1", profile=lambda e: P.bv_profile(e, (3,)), depth=1, shards=4)
     # ---- strings
-    A(name="str-d2", profile=lambda e: P.str_profile(e, strs=("", "ab"), ints=(0, 1)), depth=2, shards=16,
-      max_new=1 if q else None)
+    A(name="str-d2", profile=lambda e: P.str_profile(e, strs=("", "ab"), ints=(0, 1)), depth=2, shards=4,
+      max_new=1)     # few shards: every shard filters the whole product space
     # ---- arrays (Boolean selects, constant arrays, stores)
     for nm, i, e_ in (("int-int", INT, INT), ("bv1-bool", ("BV", 1), BOOL), ("int-bool", INT, BOOL),
                       ("real-bv2", REAL, ("BV", 2))):
         A(name="arr-%s-d2" % nm, profile=(lambda i, e_: lambda e: P.arr_profile(e, i, e_))(i, e_),
-          depth=2, shards=8, max_new=1 if q else None)
+          depth=2, shards=4, mid_ops=_not_named("arrite"), top_ops=_not_named("store"), max_new=1)
+        A(name="arr-%s-d2-tern" % nm, profile=(lambda i, e_: lambda e: P.arr_profile(e, i, e_))(i, e_),
+          depth=2, shards=2, mid_ops=_names_in("select", "store"), top_ops=_names_in("store", "arrite"),
+          max_new=1)
     # ---- uninterpreted functions
     A(name="uf-d2", profile=P.uf_profile, depth=2, shards=16, dom={INT: (0, 1, 2)})
     if not q:
         A(name="uf-d3", profile=P.uf_profile, depth=3, shards=128, dom={INT: (0, 1)},
-          mid_ops=_not_named("plus"), top_ops=_binary_or_less, max_new=1)
+          mid_ops=_not_named("plus", "ite"), top_ops=_binary_or_less, max_new=1)
     # ---- quantifiers
-    A(name="quant-d2", profile=P.quant_profile, depth=2, shards=16, dom={INT: (-1, 0, 2)})
-    A(name="quant-d3-shadow", profile=P.quant_profile, depth=3, shards=32, dom={INT: (0, 1)},
-      mid_ops=_names_in("and", "le", "bveq1", "iff", "forall_x", "exists_u", "forall_a", "exists_ab",
-                        "forall_ux", "exists_xy"),
-      top_ops=(lambda o: _QOPS(o) or o.name in ("and", "or", "iff", "not")), max_new=1 if q else 2)
+    A(name="quant-d2", profile=P.quant_profile, depth=2, shards=16, dom={INT: (-1, 0, 2)},
+      max_new=1 if q else None)
+    A(name="shadow-d3", profile=shadow_profile, depth=3, shards=32 if q else 128, dom={INT: (0, 1)},
+      mid_ops=_names_in("and", "le", "bveq1", "forall_x", "exists_xy", "forall_a", "exists_u", "exists_ax")
+      if q else _not_named("or"), max_new=1)
     if not q:
         A(name="quant-d3", profile=P.quant_profile, depth=3, shards=128, dom={INT: (0, 1)},
-          mid_ops=_names_in("and", "or", "not", "le", "inteq", "bveq1", "bvult2", "plus", "forall_a",
-                            "exists_u", "forall_x", "exists_ab", "forall_w", "exists_au"),
+          mid_ops=_names_in("and", "not", "le", "bveq1", "bvult2", "forall_a", "exists_u", "forall_x",
+                            "exists_ab", "forall_w", "exists_au", "forall_ux"),
           top_ops=(lambda o: _QOPS(o) or o.name in ("not", "and", "implies")), max_new=1)
     # ---- mixed shapes (own profiles)
     A(name="mix-d2", profile=mix_profile, depth=2, shards=32, dom={INT: (0, 1)},
       top_ops=_not_named("bite", "ite", "store"))
-    A(name="mix-d2-tern", profile=mix_profile, depth=2, shards=32, dom={INT: (0, 1)},
-      top_ops=_names_in("bite", "ite", "store"), max_new=1)
-    A(name="mix-d3", profile=mix_profile, depth=3, shards=64 if q else 256, dom={INT: (0, 1)},
-      mid_ops=_names_in("and", "fb", "fi", "pr", "g", "select", "eq", "forall_x", "exists_a", "ite")
-      if q else _not_named("bite", "store", "renest_x", "shadow_a", "shadow_x", "iff", "plus"),
-      top_ops=_not_named("bite", "ite", "store") if q else None, max_new=1)
-    A(name="boolth-d3", profile=boolth_profile, depth=3, shards=32 if q else 128,
-      mid_ops=_names_in("ite", "le", "eq", "and", "not") if q else _not_named("bite"),
-      top_ops=_names_in(*(B2 + ("bite", "le", "eq"))), max_new=1 if q else 2)
+    A(name="mix-d2-tern", profile=mix_profile, depth=2, shards=4 if q else 64, dom={INT: (0, 1)},
+      top_ops=_names_in("bite", "ite", "store"), max_new=1 if q else 2)
+    A(name="mix-d3", profile=mix_profile, depth=3, shards=32 if q else 256, dom={INT: (0, 1)},
+      mid_ops=_names_in("fb", "fi", "pr", "g", "select", "eq", "forall_x", "exists_a")
+      if q else _names_in("and", "fb", "fi", "pr", "g", "h", "select", "selectS", "eq", "eqS",
+                          "forall_x", "exists_a", "forall_s"),
+      top_ops=_not_named("bite", "ite", "store"), max_new=1)
+    A(name="boolth-d3", profile=(lambda e: boolth_profile(e, wide=not q)), depth=3, shards=32 if q else 128,
+      mid_ops=_names_in("ite", "le", "and", "not") if q else _names_in("ite", "le", "eq", "and", "not", "iff"),
+      top_ops=_names_in("not", "and", "iff", "le") if q else _not_named("eq", "ite", "bite"), max_new=1)
     return ps
 
 
@@ -710,7 +790,7 @@ def run_chain_shard(args):
             t = step(t, i)
             if i in depths:
                 res.count("evaluations")
-                check(t)
+                check(t, {"chain": fam_idx, "chain_name": name, "depth": i})
     finally:
         pop_env()
     return res
@@ -755,15 +835,23 @@ def replay(rec):
     env = Environment()
     push_env(env)
     try:
-        f = termio.build(env, rec["case"]["term"])
+        case = rec["case"]
+        if "term" in case:
+            f = termio.build(env, case["term"])
+            shown = termio.short(case["term"])
+        else:
+            _, f, step = _chain_families(env)[case["chain"]]
+            for i in range(1, case["depth"] + 1):
+                f = step(f, i)
+            shown = "chain %s of depth %d" % (case["chain_name"], case["depth"])
         an = Analyser(env, {"name": "replay", "cap": CAP_THOROUGH, "dom": {INT: (0, 1)}})
         fails = an.verdict(f)
-        kind = rec["case"].get("kind")
+        kind = case.get("kind")
         if kind in fails:
-            return False, "%s: %s: %s" % (termio.short(rec["case"]["term"]), kind, fails[kind])
+            return False, "%s: %s: %s" % (shown, kind, fails[kind])
         if fails:
             k = sorted(fails)[0]
-            return False, "%s: %s: %s" % (termio.short(rec["case"]["term"]), k, fails[k])
-        return True, "all analyses of %s are exact" % termio.short(rec["case"]["term"])
+            return False, "%s: %s: %s" % (shown, k, fails[k])
+        return True, "all analyses of %s are exact" % shown
     finally:
         pop_env()
